@@ -62,7 +62,7 @@ class Cfg:
     boost_p: float = 0.4
     pred: object = None  # family predicate (default: unitary qubit gates)
     conf: bool = True  # confusion maps allowed
-    sub_tags: tuple = (0, 0, 1, 2, 3, 4)
+    sub_tags: tuple = (0, 0, 0, 1, 1, 2, 3, 4, 5)
     sub_reps2: bool = True
     sub_kmap: bool = True
     sub_qperm: bool = True
@@ -167,6 +167,13 @@ def _body(draw, cfg: Cfg, dims, depth, max_ops):
         if cfg.tags and kind != "sub":
             o["tag"] = draw(st.sampled_from([0, 0, 0, 0, 1, 1, 2]))
         ops.append(o)
+        if kind == "m" and cfg.cc > 0 and draw(st.integers(0, 9)) < 4:
+            # feed-forward right behind the measurement, preferably on wires the measurement does not touch
+            free = [w for w in range(len(dims)) if w not in o["w"] and dims[w] == 2]
+            if free:
+                g = draw(G.gate_recipes(lambda f: f.unitary and not f.qudit and f.arity == 1, max_arity=1))
+                ops.append({"k": "cc", "g": g, "w": [draw(st.sampled_from(free))], "conds": [draw(_cond(cfg))],
+                            "ins": draw(st.sampled_from([0, 0, 1])), "tag": 0})
     return ops
 
 
